@@ -213,11 +213,12 @@ def finish(prop, tier, seed, nshards, mod, results, inconclusive, t0, is_replay)
     if unknown:
         seen = set()
         for v, p in zip(unknown, replay_paths):
-            sig = v.get("kind", "") + "|" + str(v.get("detail", ""))[:160]
-            if sig in seen:
+            sig = v.get("kind", "") + "|" + str(v.get("pos_desc", "")) + "|" + str(v.get("exc", ""))
+            if sig in seen or len(seen) >= 8:
                 continue
             seen.add(sig)
-            print(f"  witness: {json.dumps({k: v[k] for k in v if k not in ('module_src',)}, default=str)[:900]}")
+            print(f"  witness: {json.dumps({k: v[k] for k in v if k not in ('module_src',)}, default=str)[:700]}")
+        print(f"  ({len(unknown)} unclassified witnesses; kinds: {sorted({v.get('kind', '') for v in unknown})})")
         print(f"VIOLATION property={prop} replay={replay_paths[0]}")
         return 1
     if inconclusive:
